@@ -161,7 +161,7 @@ impl BlockRule for BlockquoteScanner {
         state.blk_indent = old_indent;
 
         let mut node = std::mem::replace(&mut state.node, old_node);
-        node.srcmap = state.get_map(start_line, next_line - 1);
+        node.srcmap = state.get_map(start_line, state.line - 1);
         state.node.children.push(node);
 
         true
